@@ -1,12 +1,12 @@
 package props
 
 import (
-	"go/token"
-	"go/ast"
 	"crypto/sha256"
 	"encoding/hex"
 	"encoding/pem"
 	"fmt"
+	"go/ast"
+	"go/token"
 	"os"
 	"path/filepath"
 	"strings"
